@@ -402,7 +402,18 @@ def d5_validity(chk, F):
                f"a result is valid exactly when it has output and no error; is_valid computes {e[:120]}", sample=f"is_valid = has_output() && !report.has_errors()")
     g = F.funcs.get("cooklang::error::SourceReport::has_errors")
     if g is not None:
-        chk.expect(bool(calls_to(g, "SourceReport::errors")), "C07.D5-validity", "has_errors", f"{g.file}:{g.line}",
+        uses_err = bool(calls_to(g, "SourceReport::errors"))
+        if not uses_err:
+            # or selects the severity itself: the constant Severity::Error is what it compares with / passes on
+            import json as _json
+            for h in F.region_funcs(g.key):
+                for _b, _t in h.calls():
+                    if any((a.get("const") or {}).get("path", "").endswith("Severity::Error") or "Severity::Error" in full(resolve(h, a)) for a in _t.get("args", [])):
+                        uses_err = True
+                for _i, _j, _s in h.iter_stmts():
+                    if _s["k"] == "assign" and "Severity::Error" in _json.dumps(_s["rv"]) and "Severity::Warning" not in _json.dumps(_s["rv"]):
+                        uses_err = True
+        chk.expect(uses_err, "C07.D5-validity", "has_errors", f"{g.file}:{g.line}",
                    "SourceReport::has_errors no longer looks at the error-severity diagnostics", sample="has_errors → errors().next().is_some()")
     g = F.funcs.get("cooklang::error::SourceReport::errors")
     if g is not None:
